@@ -31,7 +31,10 @@ ASSUMPTIONS = ["a fault is an exception or crash at one put_item call of a publi
                "the rename); os.rename of the image directory is atomic",
                "the file set of an approved image does not change between publish() invocations; file names are distinct "
                "(a directory listing has no duplicates); approved image directories contain only regular files (LXY tile layout)",
-               "only the local store backend is executed; AzureBlobPipelineIo.put_item (upload_blob without overwrite) is not"]
+               "only the local store backend is executed; AzureBlobPipelineIo.put_item (upload_blob without overwrite) is not",
+               "housekeeping theorems: rejects/ holds rejected images only (an image directory is in exactly one of processed/, "
+               "approved/, rejects/, published/; the commands move it with os.rename); that ignore-rejects walks rejects/ is "
+               "the code's part, compared on every history of part (d); faults in part (d) are before/after a transfer only"]
 
 F_KEY = "C18/pipeline/local_io.py:put_item/in-place-rewrite-under-existing-index"
 
